@@ -286,7 +286,8 @@ def _field_initialisers(prog, chk, R, ev):
 
 
 def _destruction(prog, chk, R, ex):
-    f = R.ev_method('destroyObject')
+    from ..kcanon import inline_closures
+    f = inline_closures(prog, R.ev_method('destroyObject'))
     objp = f.params[0]['id']
     g = prog.cfg(f)
     execs = [c for c in g.calls(lambda e: e['k'] == 'mcall' and e.get('callee') == ex.name)]
